@@ -91,6 +91,39 @@ def task_chunk(exprs, seed_list):
 REGIONS = {}
 
 
+def e1_cases(tier):
+    """class algebra with a SYMBOLIC operand character and a SYMBOLIC candidate code point"""
+    from vlib.symx import engine
+    P = [("A0", "str"), ("c", "int")]
+    pre = ["len(A0) == 1 and 0 <= c and c <= 1114111"]
+    a = "ord(A0)"
+    inr = lambda lo, hi: "(%d <= c and c <= %d)" % (ord(lo), ord(hi))
+    table = [
+        ("AnyBetween('a', 'f') | A0", "%s or c == %s" % (inr("a", "f"), a), None),
+        ("A0 | AnyBetween('a', 'f')", "%s or c == %s" % (inr("a", "f"), a), None),
+        ("AnyFrom(A0) | AnyFrom('[', 'x')", "c == %s or c == 91 or c == 120" % a, None),
+        ("AnyBetween('[', 'a') - A0", "%s and c != %s" % (inr("[", "a"), a), None),
+        ("AnyFrom('a') - A0", "c == 97", "%s == 97" % a),
+        ("A0 - AnyBetween('a', 'f')", "c == %s" % a, "97 <= %s and %s <= 102" % (a, a)),
+        ("~AnyFrom(A0)", "c != %s" % a, None),
+        ("~AnyFrom(A0, ']')", "c != %s and c != 93" % a, None),
+        ("~(~AnyFrom(A0, '-'))", "c == %s or c == 45" % a, None),
+        ("AnyButFrom('x') | AnyButFrom(A0)", "c != 120 and c != %s" % a, None),
+        ("AnyButBetween('a', 'f') - AnyButFrom(A0)", "not (%s and c != %s)" % (inr("a", "f"), a), "False"),
+        ("(AnyBetween('a', 'c') | A0) - 'b'", "(%s or c == %s) and c != 98" % (inr("a", "c"), a), None),
+    ]
+    if tier == "quick":
+        table = table[:3] + table[3:4] + table[4:5] + table[6:9]
+    cs = []
+    for expr, want, empty in table:
+        body = ("try:\n    p = %s\nexcept EmptyClassException:\n    return %s\n" % (expr, empty if empty is not None else "False") +
+                ("if %s:\n    return False\n" % empty if empty not in (None, "False") else "") +
+                "return class_member(str(p), c) == (%s)" % want)
+        cs.append(engine.raw_case(body, P, pre, "%s: candidate membership == set algebra%s (operand character and candidate symbolic)" %
+                                  (expr, "; EmptyClassException iff nothing is left" if empty else "")))
+    return cs
+
+
 def run(tier):
     run = common.Run(PROP, tier)
     run.known.probe()
@@ -106,11 +139,17 @@ def run(tier):
     n = 150
     tasks = [("task_chunk", (ex[i:i + n], seed_list)) for i in range(0, len(ex), n)]
     run.add(common.run_tasks(__name__, tasks))
+    from vlib.symx import engine
+    cases = e1_cases(tier)
+    outs = engine.run_cases(cases, per_condition_timeout=420 if tier == "quick" else 3000)
+    run.add(engine.to_results(cases, outs))
+    run.info = {"crosshair_harnesses": len(cases), "crosshair_paths_explored": sum(r.get("paths", 0) for r in run.results)}
     run.triage(REGIONS)
     run.bounds = {"expressions": "%d class expressions: ~x, ~~x; x|y, x-y over operand pairs built from a %d-point ordered pool (singles, all ranges, "
                   "close/metacharacter pairs)%s; negated and mixed operands; named classes, Any, global word class; bare characters and tokens on "
                   "either side; 3-operand chains" % (len(ex), len(CORE if tier == "quick" else PTS), " sampled by seed" if tier == "quick" else ""),
                   "candidate": "every code point (z3 over the minterms of emitted vs specified set), minus Unicode-only members of \\d \\s \\w",
+                  "E1": "%d CrossHair harnesses: union / subtraction / negation with a SYMBOLIC operand character and a SYMBOLIC candidate code point" % len(cases),
                   "hash_seeds": "PYTHONHASHSEED 0..%d (real interpreters, enumerated)" % (len(seed_list) - 1)}
     run.assumptions = ["specification: Python set algebra on the operands' specified sets; for negated classes on the excluded sets; "
                        "EmptyClassException iff nothing is left; mixed regular/negated raises the documented exception; Any absorbs unions",
